@@ -9,6 +9,7 @@ All concrete numbers that meet a symbolic value are lifted to *exact rationals* 
 a dyadic rational), so a symbolic run is exact real arithmetic.
 """
 import fractions
+import os
 import itertools
 import math
 import time
@@ -33,6 +34,11 @@ class Engine:
         self.timeout_ms = timeout_ms
         self.max_paths = max_paths
         self.stats = dict(paths=0, forks=0, feas_queries=0, solver_s=0.0, queries=0, aborted=0)
+        self.som = os.environ.get("VF_SOM", "1") == "1"
+        self.som_blowup = int(os.environ.get("VF_SOM_BLOWUP", "100000"))
+        self.abstract_first = os.environ.get("VF_ABSTRACT", "1") == "1"
+        self.relevance = os.environ.get("VF_RELEVANCE", "1") == "1"
+        self.opaque_ext = os.environ.get("VF_OPAQUE_EXT", "1") == "1"  # abs/max/min as shared defined symbols instead of If-terms
         self.perturb = None  # None or z3 Real delta: comparisons decided with margin (C06-tie mode)
 
     # ---- per path state
@@ -40,6 +46,8 @@ class Engine:
         self.prefix = list(prefix)
         self.pos = 0
         self.pc = []  # z3 bools: path condition + assumptions + definitional constraints
+        self.def_of = {}  # fresh symbol name -> its defining formula (for relevance closure)
+        self.defs = []  # definitions of total functions (abs, max, min) by fresh symbols: always satisfiable, always included
         self.fresh = itertools.count()
         self.solver = z3.Solver()
         self.solver.set("timeout", self.timeout_ms)
@@ -60,8 +68,54 @@ class Engine:
             if not b:
                 raise Abort()
             return
-        self.pc.append(b)
+        for c in _conjuncts(b):
+            self.pc.append(c)
+            self.solver.add(c)
+
+    def canon(self, t):
+        return z3.simplify(t, som=True, som_blowup=self.som_blowup, expand_power=True)
+
+    def define(self, b):
+        self.defs.append(b)
         self.solver.add(b)
+
+    def def_abs(self, t):
+        """|t| as a shared opaque symbol y with y >= 0, (y == t or y == -t); same canonical polynomial (up to sign) -> same symbol"""
+        c = self.canon(t)
+        if z3.is_rational_value(c):
+            return c if c.numerator_as_long() >= 0 else z3.simplify(-c)
+        k1, k2 = c.sexpr(), self.canon(-t).sexpr()
+        key = "abs:" + min(k1, k2)
+        if key not in self.notes:
+            y = self.fresh_real("abs")
+            self.define(z3.And(y >= 0, z3.Or(y == c, y == -c)))
+            self.def_of[y.decl().name()] = self.defs[-1]
+            self.notes[key] = y
+        return self.notes[key]
+
+    def def_ext(self, ts, which):
+        """max / min of terms as a shared opaque symbol (keyed by the set of canonical arguments)"""
+        cs = []
+        seen = set()
+        for t in ts:
+            c = self.canon(t)
+            if c.sexpr() not in seen:
+                seen.add(c.sexpr()); cs.append(c)
+        if all(z3.is_rational_value(c) for c in cs):
+            vals = [fractions.Fraction(c.numerator_as_long(), c.denominator_as_long()) for c in cs]
+            return rat(max(vals) if which == "max" else min(vals))
+        if len(cs) == 1:
+            return cs[0]
+        key = which + ":" + "|".join(sorted(seen))
+        if key not in self.notes:
+            y = self.fresh_real(which)
+            if which == "max":
+                self.define(z3.And([y >= c for c in cs] + [z3.Or([y == c for c in cs])]))
+            else:
+                self.define(z3.And([y <= c for c in cs] + [z3.Or([y == c for c in cs])]))
+            self.def_of[y.decl().name()] = self.defs[-1]
+            self.notes[key] = y
+        return self.notes[key]
 
     def _check(self, *extra):
         t0 = time.time()
@@ -127,9 +181,14 @@ class Engine:
         finally:
             Engine.cur = prev
 
-    def feasible(self):
+    def feasible(self, timeout_ms=None):
         """is the current path condition satisfiable? ('sat'/'unsat'/'unknown')"""
-        return str(self._check())
+        if timeout_ms:
+            self.solver.set("timeout", timeout_ms)
+        try:
+            return str(self._check())
+        finally:
+            self.solver.set("timeout", self.timeout_ms)
 
     def prove(self, goal, extra=(), timeout_ms=None, pc_upto=None):
         """is pc & extra & not goal unsat?  returns (verdict, model)"""
@@ -142,14 +201,150 @@ class Engine:
         """satisfiability of pc & formulas. returns (verdict, model)"""
         s = z3.Solver()
         s.set("timeout", timeout_ms or self.timeout_ms)
-        if with_pc:
-            s.add(*(self.pc if pc_upto is None else self.pc[:pc_upto]))
-        s.add(*formulas)
+        fs_ = (list(self.pc if pc_upto is None else self.pc[:pc_upto]) + list(self.defs)) if with_pc else []
+        fs_ += list(formulas)
+        if self.som:
+            # sum-of-monomials normal form: polynomially equal sub-terms of code and specification become identical terms
+            fs_ = [z3.simplify(f, som=True, som_blowup=self.som_blowup, expand_power=True) for f in fs_]
         t0 = time.time()
+        if self.abstract_first and fs_:
+            # sound shortcut: replace every non-linear sub-term (product of unknowns, division by an unknown) by an opaque fresh
+            # real; identical terms get the same symbol.  unsat of this linear relaxation implies unsat of the real query.
+            try:
+                ab = abstract_nonlinear(fs_)
+                sa = z3.Solver()
+                sa.set("timeout", min(timeout_ms or self.timeout_ms, 20000))
+                sa.add(*ab)
+                if sa.check() == z3.unsat:
+                    self.stats["solver_s"] += time.time() - t0
+                    self.stats["queries"] += 1
+                    self.stats["abstract_unsat"] = self.stats.get("abstract_unsat", 0) + 1
+                    return "unsat", None
+            except z3.Z3Exception:
+                pass
+        if with_pc and self.relevance and len(fs_) > len(formulas) + 3:
+            # stage 1: only those path-condition atoms whose symbols all occur in the goal formulas (dropping hypotheses is sound for unsat)
+            gv = set()
+            for f in formulas:
+                gv |= _symbols(f)
+            grew = True
+            while grew:  # close the symbol set under the definitions of the fresh symbols it contains
+                grew = False
+                for name, f in self.def_of.items():
+                    if name in gv:
+                        sv = _symbols(f)
+                        if not sv <= gv:
+                            gv |= sv
+                            grew = True
+            base_ = fs_[:len(fs_) - len(formulas)]
+            pool = [(f, _symbols(f)) for f in base_]
+            keep = []
+            # definitional atoms pull in their own symbols (one round), then subset filter
+            for f, sv in pool:
+                if sv and sv <= gv:
+                    keep.append(f)
+            if len(keep) < len(base_):
+                s1 = z3.Solver()
+                s1.set("timeout", min(timeout_ms or self.timeout_ms, 10000))
+                s1.add(*keep)
+                s1.add(*fs_[len(base_):])
+                if s1.check() == z3.unsat:
+                    self.stats["solver_s"] += time.time() - t0
+                    self.stats["queries"] += 1
+                    self.stats["relevance_unsat"] = self.stats.get("relevance_unsat", 0) + 1
+                    return "unsat", None
+        s.add(*fs_)
         r = s.check()
         self.stats["solver_s"] += time.time() - t0
         self.stats["queries"] += 1
         return str(r), (s.model() if r == z3.sat else None)
+
+
+def _conjuncts(b):
+    if z3.is_and(b):
+        out = []
+        for c in b.children():
+            out.extend(_conjuncts(c))
+        return out
+    return [b]
+
+
+_SYM_CACHE = {}
+
+
+def _symbols(t):
+    """names of the uninterpreted constants occurring in a term"""
+    k = t.get_id()
+    if k in _SYM_CACHE:
+        return _SYM_CACHE[k]
+    out = set()
+    seen = set()
+    stack = [t]
+    while stack:
+        u = stack.pop()
+        i = u.get_id()
+        if i in seen:
+            continue
+        seen.add(i)
+        if z3.is_quantifier(u):
+            stack.append(u.body())
+            continue
+        if z3.is_app(u):
+            if u.num_args() == 0:
+                if u.decl().kind() == z3.Z3_OP_UNINTERPRETED:
+                    out.add(u.decl().name())
+            else:
+                stack.extend(u.children())
+    if len(_SYM_CACHE) > 200000:
+        _SYM_CACHE.clear()
+    _SYM_CACHE[k] = frozenset(out)
+    return _SYM_CACHE[k]
+
+
+def abstract_nonlinear(formulas):
+    """replace non-linear arithmetic sub-terms by fresh reals (same term -> same symbol)"""
+    cache = {}
+    names = {}
+
+    def opaque(t):
+        k = t.get_id()
+        if k not in names:
+            names[k] = z3.Real(f"nl!{len(names)}")
+        return names[k]
+
+    def is_num(t):
+        return z3.is_rational_value(t) or z3.is_int_value(t) or z3.is_algebraic_value(t)
+
+    def walk(t):
+        k = t.get_id()
+        if k in cache:
+            return cache[k]
+        r = t
+        if z3.is_app(t) and t.num_args() > 0:
+            kind = t.decl().kind()
+            ch = t.children()
+            if kind == z3.Z3_OP_MUL:
+                non = [c for c in ch if not is_num(c)]
+                if len(non) >= 2:
+                    r = opaque(t)
+                else:
+                    r = t.decl()(*[walk(c) for c in ch])
+            elif kind in (z3.Z3_OP_DIV, z3.Z3_OP_IDIV, z3.Z3_OP_MOD, z3.Z3_OP_REM):
+                if is_num(ch[1]):
+                    r = t.decl()(walk(ch[0]), ch[1])
+                else:
+                    r = opaque(t)
+            elif kind == z3.Z3_OP_POWER:
+                r = opaque(t)
+            elif z3.is_quantifier(t):
+                r = t
+            else:
+                r = t.decl()(*[walk(c) for c in ch])
+        elif z3.is_quantifier(t):
+            r = t
+        cache[k] = r
+        return r
+    return [walk(f) for f in formulas]
 
 
 def E():
@@ -214,7 +409,10 @@ class S:
     def __rtruediv__(s, o): return s._b(o, lambda a, b: b / a)
     def __neg__(s): return S(z3.simplify(-s.t))
     def __pos__(s): return s
-    def __abs__(s): return S(z3.If(s.t >= 0, s.t, -s.t))
+    def __abs__(s):
+        if Engine.cur is not None and Engine.cur.opaque_ext:
+            return S(Engine.cur.def_abs(s.t))
+        return S(z3.If(s.t >= 0, s.t, -s.t))
 
     def __pow__(s, o):
         if isinstance(o, (int, np.integer)) or (isinstance(o, (float, np.floating)) and float(o).is_integer()):
@@ -238,6 +436,7 @@ class S:
         y = e.fresh_real("sqrt")
         e.assume(y >= 0)
         e.assume(y * y == s.t)
+        e.def_of[y.decl().name()] = z3.And(y >= 0, y * y == s.t)
         r = S(y)
         e.notes[k] = r
         return r
@@ -360,6 +559,8 @@ def _el(f, nin):
 def smin(a, b):
     if isinstance(a, S) or isinstance(b, S):
         x, y = lift(a), lift(b)
+        if Engine.cur is not None and Engine.cur.opaque_ext:
+            return S(Engine.cur.def_ext([x, y], "min"))
         return S(z3.simplify(z3.If(x <= y, x, y)))
     return min(a, b)
 
@@ -367,6 +568,8 @@ def smin(a, b):
 def smax(a, b):
     if isinstance(a, S) or isinstance(b, S):
         x, y = lift(a), lift(b)
+        if Engine.cur is not None and Engine.cur.opaque_ext:
+            return S(Engine.cur.def_ext([x, y], "max"))
         return S(z3.simplify(z3.If(x >= y, x, y)))
     return max(a, b)
 
